@@ -975,6 +975,10 @@ class _GenerateRenderMethod:
         # <%def>s within <%call> we want the current caller
         # off the call stack (if any)
         body_identifiers.add_declared("caller")
+        # the enclosing scope may know the name 'caller' already; the
+        # <%def>s written into ccall() would then bind the argument of
+        # ccall() instead of looking at the call stack
+        callable_identifiers.declared.discard("caller")
 
         self.identifier_stack.append(body_identifiers)
 
